@@ -1,4 +1,5 @@
 import Pymeeus.Refine.Ellipsoid
+import Pymeeus.Refine.Parallax
 /-!
 # C18 — Earth ellipsoid quantities and surface distance satisfy their identities
 
@@ -9,7 +10,8 @@ EVERY ellipsoid with `a > 0`, `0 ≤ f < 1` (`Valid el`) and every latitude.  La
 -/
 noncomputable section
 namespace Pymeeus.C18
-open Pymeeus Pymeeus.PR Pymeeus.GenR.Kepler Pymeeus.GenR.Ellipsoid Pymeeus.Refine.Kepler Pymeeus.Refine.Ellipsoid Real
+open Pymeeus Pymeeus.PR Pymeeus.GenR.Kepler Pymeeus.GenR.Ellipsoid Pymeeus.Refine.Kepler Pymeeus.Refine.Ellipsoid
+  Pymeeus.Refine.Parallax Real Filter Topology
 
 /-! ## Geocentric coordinates of the observer -/
 
@@ -230,6 +232,70 @@ theorem distance_antipodal_undefined (el : Ell) (lon lat : ℝ) :
   have hg : (pradians lat - pradians (-lat)) / 2 = pradians lat := by unfold pradians; ring
   rw [hl, hf, hg, Real.sin_neg, Real.cos_neg, Real.sin_pi_div_two, Real.cos_pi_div_two, Real.sin_zero, Real.cos_zero]
   apply andoyer_antipodal <;> norm_num
+
+/-! ## Topocentric parallax -/
+
+/-- Value of a result, `d` when the model raised an exception (used to state limits of the model functions). -/
+def valueOr {α : Type} (d : α) : PyRes α → α
+  | .ok a => a
+  | .error _ => d
+
+/-- "Topocentric parallax corrections tend to zero as distance grows" for `parallax_correction`, proved for bodies
+    that are not at a celestial pole (`|δ| < 90°`) and right ascensions in the range of an Angle (`|α| < 360°`): the
+    corrected pair `(α', δ')` tends to `(α, δ)` as `distance → ∞`, for every observer latitude, hour angle and height.
+    (`_partial`: the bound "never more than the horizontal parallax" is not proved here — it is evaluated on the
+    implementation by the harness — and is FALSE within the horizontal parallax of a pole, see the counterexample below.) -/
+theorem parallax_correction_limit_partial (ra dec lat ha height : ℝ) (hra : |ra| < 360) (h1 : -90 < dec) (h2 : dec < 90) :
+    Tendsto (fun dist => valueOr (0, 0) (parallax_correction ra dec lat dist ha height)) atTop (𝓝 (ra, dec)) := by
+  have hpi := Real.pi_pos
+  have hd1 : -(π / 2) < pradians dec := by unfold pradians; nlinarith
+  have hd2 : pradians dec < π / 2 := by unfold pradians; nlinarith
+  have hdec : 0 < Real.cos (pradians dec) := Real.cos_pos_of_mem_Ioo ⟨hd1, hd2⟩
+  have hda := delta_a_tendsto dec lat ha height hdec
+  have hdc := dec'_tendsto dec lat ha height h1 h2
+  have hsum : Tendsto (fun dist => ra + delta_a dec lat dist ha height) atTop (𝓝 ra) := by
+    simpa using (tendsto_const_nhds (x := ra)).add hda
+  -- eventually the sum stays inside (-360, 360), where reduce_deg is the identity
+  have hev : ∀ᶠ dist in atTop, |ra + delta_a dec lat dist ha height| < 360 :=
+    (continuous_abs.tendsto ra).comp hsum |>.eventually (gt_mem_nhds hra)
+  have hpair : Tendsto (fun dist => (ra + delta_a dec lat dist ha height, dec' dec lat dist ha height)) atTop (𝓝 (ra, dec)) :=
+    hsum.prodMk_nhds hdc
+  refine hpair.congr' ?_
+  filter_upwards [hev, eventually_gt_atTop (0 : ℝ)] with dist hsmall hpos
+  rw [parallax_correction_eq ra dec lat hpos.ne' ha height]
+  simp only [valueOr, angle_add, reduce_deg_small hsmall]
+
+/-- The clause "never displace a body by more than the horizontal parallax" is FALSE of `parallax_correction` at a
+    celestial pole: for every distance, a body at declination +90° seen from the equator at sea level with hour
+    angle 0 gets a "declination" in `(-180°, -90°)` — the opposite hemisphere (finding
+    C18-parallax-correction-polar-cap; the harness shows the same on the implementation within the horizontal
+    parallax of either pole). -/
+theorem parallax_correction_pole_counterexample (ra : ℝ) {dist : ℝ} (hd : 0 < dist) :
+    ∃ ra' dec', parallax_correction ra 90 0 dist 0 0 = .ok (ra', dec') ∧ -180 < dec' ∧ dec' < -90 := by
+  obtain ⟨h1, h2⟩ := polar_dec hd
+  exact ⟨_, _, parallax_correction_eq ra 90 0 hd.ne' 0 0, h1, h2⟩
+
+/-- The same clause is FALSE of `parallax_ecliptical` for southern latitudes in the hemisphere `cos λ > 0`: for every
+    ecliptic latitude in `(-90°, 0°)`, body at λ = 0, observer on the equator at sea level, sidereal time 0, any
+    obliquity and any distance beyond the Earth's surface, the returned topocentric latitude lies in `(90°, 180°)`
+    (finding C18-parallax-ecliptical-south-latitude). -/
+theorem parallax_ecliptical_south_counterexample {lat dist : ℝ} (obl : ℝ) (h1 : -90 < lat) (h2 : lat < 0) (hd : 0 < dist)
+    (hn : sin_pi0 / dist < Real.cos (pradians lat)) :
+    ∃ tl, parallax_ecliptical 0 lat 0 0 obl 0 dist 0 = .ok (0, tl, 0) ∧ 90 < tl ∧ tl < 180 :=
+  ecliptical_south obl h1 h2 hd hn
+
+/-- The hypotheses of the counterexample are satisfiable (β = -10°, 1 AU). -/
+example : sin_pi0 / 1 < Real.cos (pradians (-10)) := by
+  have hpi := Real.pi_pos
+  have h3 := Real.pi_lt_d2
+  have hs : sin_pi0 ≤ 1.0 * (0 + 0 / 60.0 + 8.794 / 3600.0) * (π / 180) := by
+    unfold sin_pi0 psin pradians
+    apply Real.sin_le; norm_num; positivity
+  have hc := Real.one_sub_sq_div_two_le_cos (x := pradians (-10))
+  unfold pradians at hc ⊢
+  rw [div_one]
+  norm_num at hs hc ⊢
+  nlinarith
 
 example : Valid WGS84 := ⟨by norm_num [WGS84], by norm_num [WGS84], by norm_num [WGS84]⟩
 example : Valid IAU76 := ⟨by norm_num [IAU76], by norm_num [IAU76], by norm_num [IAU76]⟩
